@@ -16,6 +16,7 @@ EXPLANATION = (
 def run(ctx):
     from spec import processing as SP
     ctx.rule("context-binding", "name, prologue and pre-message keys enter h in the specified order and by role")
+    ctx.rule("psk-source", "the psk mixed is the configured one: set_psk / Builder::psk store the caller's key")
     ctx.rule("dh-operands", "pre-shared / transmitted static keys are the DH operands the specification prescribes")
     ctx.rule("token-trace", "psk and DH tokens mix into ck/h/k as specified (both roles)")
     ctx.rule("dataflow-template", "InitializeSymmetric / MixHash / MixKey / MixKeyAndHash dataflow")
@@ -23,6 +24,7 @@ def run(ctx):
     ctx.assume("hash collision resistance / AEAD strength (not decided)")
     for cfg in ctx.cfgs:
         hsnew.check_new(ctx, cfg)
+        hsnew.check_psk_sources(ctx, cfg)
         ctx.floor("dh-operands", hsnew.check_dh_table(ctx, cfg), 8, cfg)
         n1, _ = tokens.compare(ctx, cfg, "handshakestate::HandshakeState::_write_message", SP.WRITE, SP.SEMANTIC, "token-trace", arms=("Psk", "Dh", "E", "S"))
         n2, _ = tokens.compare(ctx, cfg, "handshakestate::HandshakeState::_read_message", SP.READ, SP.SEMANTIC, "token-trace", arms=("Psk", "Dh", "E", "S"))
